@@ -169,7 +169,7 @@ Proof. exact insert_field_keys. Qed.
 Theorem C15_order_declared : forall s parent name fs s' n,
   subclass s parent name fs = ROk (s', n) ->
   fields_of s' n = fs /\ NoDup (keys fs) /\
-  (fields_of s parent <> [] -> get_extends s' n = Some parent).
+  ((fields_of s parent <> [] \/ get_extends s parent <> None) -> get_extends s' n = Some parent).
 Proof. exact subclass_fields. Qed.
 
 (** the flat field table (_get_flat_type_info): the parent's flat table first, then the own
